@@ -10,6 +10,7 @@ from engine import pat
 from engine.util import own_nodes, calls_with_nodes, where
 
 RULES = {
+    "R-16.7": "the two resolvers see the same outcome classes: a timed-out query is dns.exception.Timeout on every backend (C18 R-18.6 adopted), because query_result() retries a Timeout but drops a server for any other OSError",
     "R-16.1": "the synchronous and asynchronous resolvers (resolve loops, helper lookups, every Nameserver.query/async_query pair) project onto the same decisions and call arguments (modulo `backend`)",
     "R-16.2": "every query attempt gets its timeout from _compute_timeout(start, lifetime, errors), evaluated inside the attempt loop; _compute_timeout raises LifetimeTimeout at duration >= lifetime",
     "R-16.3": "resolve_chaining: every trip round the loop increments the counter compared with MAX_CHAIN; too long a chain raises",
@@ -203,6 +204,7 @@ def run(model, rep, tier):
     from rules.common import presence_by_identity
     presence_by_identity(model, rep, "R-16.6", ("dns.resolver", "dns.asyncresolver", "dns.nameserver"), ("timeout", "lifetime", "ndots"), "an optional number",
                          "e.g. ndots = 0 is silently treated as 1 and search-list candidates are tried before the absolute name", 3, "dns.resolver / dns.asyncresolver / dns.nameserver")
+    rep.share(model, "C18", {"R-18.6"}, "R-16.7", "_Resolution.query_result classifies exceptions: Timeout -> try again later, other OSError/FormError -> remove the server")
     rep.meta["explanation"] = (
         "Twin projection of the sync/async resolve loops, helper lookups and the five Nameserver classes (call arguments compared modulo `backend`), def-use/dominance rule for the lifetime budget, "
         "a cycle-must-pass-increment check for the CNAME chain, and set comparison of cache keys. The outcome for every fault sequence and the search-list rules are NOT decided.")
